@@ -25,7 +25,7 @@ logging.disable(logging.CRITICAL)
 
 ID = "C18"
 MODULE = "DaliVerif.Props.C18"
-EXES = ["m_wire"]
+EXES = ["m_wire", "m_rx"]
 GEN = True
 THEOREMS = []   # filled below
 EXTRA_MODULES = ["DaliVerif.Props.EndToEnd"]
@@ -917,6 +917,32 @@ def correspond(ctx, corr):
     check_seq("ltridonic (on the wire)", wire, ans[255])
     corr.exhaustive["Tridonic sequence starts 1..255 x 700 sends"] = True
     corr.nontrivial(("seq", "wrap"))
+
+    # ---- 4b. LUBA / SCI packets: every well-formed packet of the two serial gateways, one at a time, through the
+    # real protocol objects against the reference deframer of Spec/Deframe (the C19 machinery): every SCI status byte
+    # x every error code / data bytes, every LUBA event type and command code.  No packet makes the receiver raise,
+    # each is decoded to the item it denotes.  (Strengthening after seeded round 7: the serial receive side was left
+    # to C19's stream suites; 'every well-formed gateway packet decodes to the … error it denotes' is C18's own.)
+    from props import c19 as rxlib
+    ls = rxlib.Lockstep()
+    try:
+        for status in range(256):
+            code = status & 0x0F
+            datas = [(0, 0, e) for e in range(256)] if code == 7 else \
+                    [(0, 0, 0), (rng.randrange(256), rng.randrange(256), rng.randrange(256)), (0xFF, 0xFE, 0x80)]
+            for d in datas:
+                rxlib.compare(ctx, corr, ls, "sci", "sci_packets", [list(rxlib.sci_frame(status, *d))])
+        for cmdcode in range(256):
+            for n in (1, 2, 3, 7, 20):
+                rxlib.compare(ctx, corr, ls, "luba", "luba_packets",
+                              [list(rxlib.luba_frame(cmdcode, [rng.randrange(256) for _ in range(n)]))])
+        for info in range(256):
+            for data in ([], [0x21], [0xFE, 0x80], [0x01, 0xFE, 0x30], [9, 0xFE, 0x80], [9, 0x01, 0xFE, 0x30]):
+                rxlib.compare(ctx, corr, ls, "luba", "luba_packets",
+                              [list(rxlib.luba_frame(0x31, [0, 0, 0, info] + data))])
+    finally:
+        ls.close()
+    corr.exhaustive["SCI status bytes x error codes, LUBA command codes and event-info bytes (single packets)"] = True
 
     # ---- 5. UniPi receive side (hidden gateway state: the receive counter)
     correspond_unipi(ctx, corr, env)
